@@ -1344,10 +1344,15 @@ func (x *Exec) assumeWF(g *Term, v *Term, t types.Type, st *State) {
 	// A reference read from memory that has not been written since the function
 	// was entered existed at entry: its object is older than every object this
 	// function allocates.
+	// (Only for cells of objects that themselves existed then: a memory symbol also stands for the initial contents
+	// of objects allocated later — by a callee under contract, say — and those may hold newer references.)
 	bound := st.alloc
+	var cellOld *Term // nil: unconditional
 	if x.entryAlloc != nil {
 		base := v
+		var cell *Term
 		for base.op == "select" {
+			cell = base.args[1]
 			base = base.args[0]
 		}
 		if base.op == "var" && (strings.HasPrefix(base.name, "mem0_")) && base != v {
@@ -1362,15 +1367,24 @@ func (x *Exec) assumeWF(g *Term, v *Term, t types.Type, st *State) {
 				bound = b
 			}
 		}
+		if bound != st.alloc && cell != nil && cell.sort == SRef && !cell.open {
+			cellOld = c.IntCmp("<", c.RRoot(cell), bound)
+		}
+	}
+	older := func(r *Term) *Term {
+		if cellOld == nil {
+			return c.IntCmp("<", c.RRoot(r), bound)
+		}
+		return c.And(c.IntCmp("<", c.RRoot(r), st.alloc), c.Implies(cellOld, c.IntCmp("<", c.RRoot(r), bound)))
 	}
 	switch v.sort {
 	case SSlice:
 		lim := c.BV(1<<56, 64)
 		x.assume(g, c.And(c.BVCmp("bvule", c.SlLen(v), c.SlCap(v)), c.BVCmp("bvule", c.SlCap(v), lim), c.BVCmp("bvule", c.SlOff(v), lim),
-			c.IntCmp("<", c.RRoot(c.SlPtr(v)), bound),
+			older(c.SlPtr(v)),
 			c.Implies(c.Eq(c.SlPtr(v), c.Null()), c.Eq(c.SlCap(v), c.BV(0, 64)))))
 	case SRef:
-		x.assume(g, c.IntCmp("<", c.RRoot(v), bound))
+		x.assume(g, older(v))
 		x.ptrTag(g, v, t)
 	case SStr:
 		x.assume(g, c.BVCmp("bvule", c.StrLen(v), c.BV(1<<56, 64)))
